@@ -9,6 +9,14 @@ from worlds.mailbox import MailboxWorld
 from wormhole import errors as E
 
 
+def _state(m):
+    try:
+        return m._state_machine._state if hasattr(m, "_state_machine") else \
+            [k for k, v in vars(m).items() if "state" in k.lower()][:2]
+    except Exception:
+        return "?"
+
+
 def run_dilation(seed, tape, opts):
     w = MailboxWorld(tape, dict(opts, spake="stub"))
     sim = w.sim
@@ -62,6 +70,67 @@ def run_dilation(seed, tape, opts):
                                                    "message")),
             max_time=300)
     sim.run(400, max_time=10)
+    # second part: the peer connection is lost (both told, or one side first)
+    # and further hint lists arrive around the reconnect - stale ones while a
+    # side is LONELY / FLUSHING / ABANDONING / CONNECTING again. Handling them
+    # must not derail the reconnect either
+    if not viol and connected() and tape.choose(2, "reconnect_part") == 0:
+        old = (mgr(a)._connection, mgr(b)._connection)
+        lists2 = [json.loads(json.dumps(hintgen.gen_hint_list(tape, [], bogus)))
+                  if tape.choose(3, "l2kind") else []
+                  for _ in range(1 + tape.choose(3, "nlists2"))]
+        lists.extend(lists2)
+        who = [tape.pick((a, b), "inj_who") for _ in lists2]
+        tell = tape.pick((("c", "s"), ("c",), ("s",)), "tell")
+        live = [l for l in sim.net.links if l.mode == "stream" and l.up and
+                all(e.alive and e.made for e in l.ends)]
+        for l in live:
+            sim.net.cut(l, tell)
+        sim.ev("peer_links_cut", len(live), "".join(tell))
+        sim.note("fault.cut")
+        revealed = [len(tell) == 2]
+
+        def inject2():
+            i = len(injected) - (len(lists) - len(lists2))
+            hints = lists[len(injected)]
+            injected.append(hints)
+            sim.ev("inject_hints_late", who[i].name, len(hints))
+            mgr(who[i]).send_dilation_generation(type="connection-hints",
+                                                 hints=hints)
+
+        def reveal():
+            revealed[0] = True
+            for l in live:
+                sim.net.reveal(l)
+
+        def extra2():
+            evs = []
+            if len(injected) < len(lists) and not viol:
+                evs.append(("inject_hints_late", inject2))
+            if not revealed[0]:
+                evs.append(("reveal", reveal))
+            return evs
+        w.extra_app_events = extra2
+
+        def reconnected():
+            ma, mb = mgr(a), mgr(b)
+            return ma._connection is not None and mb._connection is not None \
+                and ma._connection is not old[0] and \
+                mb._connection is not old[1] and revealed[0] and \
+                len(injected) == len(lists)
+        sim.run(8000, until=lambda: bool(viol) or reconnected() or
+                bool(a.closed_results or b.closed_results or a.saw_failure or
+                     b.saw_failure), max_time=300)
+        sim.run(400, max_time=10)
+        if not viol and not reconnected() and not (
+                a.closed_results or b.closed_results or a.saw_failure or
+                b.saw_failure):
+            V("C20.dilation.no_reconnect_after_hints", "handling hints never "
+              "aborts the wormhole or the transfer: after a connection loss "
+              "the sides reconnect whatever hint lists arrive meanwhile",
+              "cut told %r; late lists from %r; states A=%s B=%s" %
+              (tell, [c.name for c in who], _state(mgr(a)), _state(mgr(b))))
+        sim.note("probe.hints_around_reconnect")
     ports = set(p for p in range(40000, sim.net.next_port + 1))
     allowed = set()
     for hl in injected:
